@@ -6,6 +6,24 @@ mod verif_kani_ops {
     use crate::storage::seq_token::verif_kani_seq::{pl_lock_exclusive_slow, pl_lock_shared_slow, pl_mutex_lock_slow, pl_mutex_unlock_slow, pl_unlock_exclusive_slow, pl_unlock_shared_slow};
 
     // ------------------------------------------------------------------ U13 read choke point
+    // cache tier: a fabricated (never dereferenced) ClockCache whose lookup is a ghost call
+    static mut CACHE_CALLS: usize = 0;
+    static mut CACHE_HIT: bool = false;
+    static mut CACHE_REC: *const Record = std::ptr::null();
+    static mut CACHE_KEY0: u8 = 0;
+    static mut CACHE_KEYLEN: usize = 0;
+    static CACHE_BYTES: [u8; 3] = [0xC1, 0xC2, 0xC3];
+
+    fn stub_cache_get(_c: &crate::core::cache::ClockCache, key: &[u8], record: &Arc<Record>) -> Option<Bytes> {
+        unsafe {
+            CACHE_CALLS += 1;
+            CACHE_REC = Arc::as_ptr(record);
+            CACHE_KEYLEN = key.len();
+            CACHE_KEY0 = if key.is_empty() { 0 } else { key[0] };
+            if CACHE_HIT { Some(Bytes::from_static(&CACHE_BYTES)) } else { None }
+        }
+    }
+
     static mut DISK_CALLS: usize = 0;
     static mut DISK_OUTCOME: u8 = 0;
     static mut DISK_REC: *const Record = std::ptr::null();
@@ -29,6 +47,7 @@ mod verif_kani_ops {
     #[kani::stub(std::time::SystemTime::now, stub_now)]
     #[kani::stub(std::time::Duration::as_nanos, stub_as_nanos)]
     #[kani::stub(FeoxStore::load_value_from_disk, stub_load_value_from_disk)]
+    #[kani::stub(crate::core::cache::ClockCache::get_for_record, stub_cache_get)]
     #[kani::stub(parking_lot::RawRwLock::lock_shared_slow, pl_lock_shared_slow)]
     #[kani::stub(parking_lot::RawRwLock::lock_exclusive_slow, pl_lock_exclusive_slow)]
     #[kani::stub(parking_lot::RawRwLock::unlock_shared_slow, pl_unlock_shared_slow)]
@@ -42,12 +61,22 @@ mod verif_kani_ops {
         let resident: bool = kani::any();
         let outcome: u8 = kani::any();
         kani::assume(outcome <= 3);
+        let with_cache: bool = kani::any();
+        let cache_hit: bool = kani::any();
         unsafe {
             WALL = now;
             DISK_CALLS = 0;
             DISK_OUTCOME = outcome;
+            CACHE_CALLS = 0;
+            CACHE_HIT = cache_hit;
         }
-        let mu = partial_store(0, 0, None, enable_ttl);
+        let mut mu = partial_store(0, 0, None, enable_ttl);
+        if with_cache {
+            let fake: Arc<std::mem::MaybeUninit<crate::core::cache::ClockCache>> = Arc::new(std::mem::MaybeUninit::uninit());
+            unsafe {
+                std::ptr::addr_of_mut!((*mu.as_mut_ptr()).cache).write(Some(std::mem::transmute(fake)));
+            }
+        }
         let store: &FeoxStore = unsafe { &*mu.as_ptr() };
         let rec = Arc::new(Record::new(vec![b'k'], vec![0x52], 5));
         rec.ttl_expiry.store(expiry, Ordering::Release);
@@ -57,17 +86,23 @@ mod verif_kani_ops {
         let lazy0 = store.stats.ttl_expired_lazy.load(Ordering::Relaxed);
         let r = store.resolve_record_value(b"k", &rec);
         let disk_calls = unsafe { DISK_CALLS };
+        let cache_calls = unsafe { CACHE_CALLS };
         let expired = enable_ttl && expiry > 0 && now > expiry;
         if expired {
             assert!(matches!(r, Err(FeoxError::KeyNotFound)), "an expired generation is hidden");
-            assert!(disk_calls == 0, "before any tier is consulted");
+            assert!(disk_calls == 0 && cache_calls == 0, "before any tier is consulted");
             assert!(store.stats.ttl_expired_lazy.load(Ordering::Relaxed) == lazy0 + 1);
         } else if resident {
             match &r {
-                Ok(Some((v, hit))) => assert!(v.len() == 1 && v[0] == 0x52 && *hit && disk_calls == 0, "the resident value of THIS generation, no disk read"),
+                Ok(Some((v, hit))) => assert!(v.len() == 1 && v[0] == 0x52 && *hit && disk_calls == 0 && cache_calls == 0, "the resident value of THIS generation wins over cache and disk"),
                 _ => assert!(false, "a live, unexpired resident value is always returned"),
             }
+        } else if with_cache && cache_hit {
+            assert!(cache_calls == 1 && unsafe { CACHE_REC } == Arc::as_ptr(&rec) && unsafe { CACHE_KEYLEN } == 1 && unsafe { CACHE_KEY0 } == b'k',
+                "the cache is asked for THIS key and THIS generation (a stale entry of another generation can never be served)");
+            assert!(disk_calls == 0 && matches!(&r, Ok(Some((v, true))) if v.len() == 3 && v[0] == 0xC1), "a cache hit is returned as is, no disk read");
         } else {
+            assert!(cache_calls == if with_cache { 1 } else { 0 });
             assert!(disk_calls == 1 && unsafe { DISK_REC } == Arc::as_ptr(&rec), "disk consulted once, for this generation");
             match outcome {
                 0 => assert!(matches!(&r, Ok(Some((v, false))) if v.len() == 2 && v[0] == 0xD1), "disk bytes returned, not counted as a memory hit"),
@@ -77,8 +112,9 @@ mod verif_kani_ops {
             }
         }
         if matches!(r, Err(FeoxError::KeyNotFound)) {
-            assert!(expired || (!resident && outcome == 2), "never hidden while unexpired or without expiry (unless the disk layer says so)");
+            assert!(expired || (!resident && !(with_cache && cache_hit) && outcome == 2), "never hidden while unexpired or without expiry (unless the disk layer says so)");
         }
+        kani::cover!(!expired && !resident && with_cache && cache_hit);
         kani::cover!(expired);
         kani::cover!(!expired && enable_ttl && expiry > 0 && now == expiry);
         kani::cover!(!expired && resident);
